@@ -25,11 +25,13 @@ const (
 	TG2hw  // hw.g2, reached with Pkg(hw.Pkg).ExportFunc("g2")
 	TG2own // hworld.g2, reached with ExportFunc("g2") without override
 	TXA
+	TVv // hw.V.ValM, reached with Struct(hw.V{}) (value instance)
+	TVp // (*hw.V).PtrM, reached with Struct(&hw.V{}) (pointer instance)
 	NTargets
 )
 
 // TargetNames for printing.
-var TargetNames = []string{"F0", "F1", "(*S).M", "(*S).m", "G", "hw.g2", "own.g2", "X.A"}
+var TargetNames = []string{"F0", "F1", "(*S).M", "(*S).m", "G", "hw.g2", "own.g2", "X.A", "V.ValM", "(*V).PtrM"}
 
 //go:noinline
 func g2(a int) int {
@@ -45,7 +47,7 @@ func g2(a int) int {
 func CallOwnG2(a int) int { return g2(a) }
 
 // Original results: a + Orig[t]; X.A unmocked panics (nil interface).
-var Orig = []int{100, 200, 300, 400, 500, 600, 650, 0}
+var Orig = []int{100, 200, 300, 400, 500, 600, 650, 0, 150, 250}
 
 // Call calls target t with argument a.
 func Call(t Target, a int) int {
@@ -66,6 +68,10 @@ func Call(t Target, a int) int {
 		return CallOwnG2(a)
 	case TXA:
 		return hw.CallXA(a)
+	case TVv:
+		return hw.V{K: 1}.ValM(a)
+	case TVp:
+		return (&hw.V{K: 1}).PtrM(a)
 	}
 	panic("bad target")
 }
@@ -88,6 +94,10 @@ func EntryPC(t Target) uintptr {
 		return pcByName(hw.Pkg + ".g2")
 	case TG2own:
 		return reflect.ValueOf(g2).Pointer()
+	case TVv:
+		return pcByName(hw.Pkg + ".V.ValM")
+	case TVp:
+		return pcByName(hw.Pkg + ".(*V).PtrM")
 	}
 	return 0
 }
@@ -145,6 +155,10 @@ type Op struct {
 	// Kept: through the handle obtained by the first lookup of (builder, target) in this history,
 	// even across a Cancel/Reset (re-apply through a kept handle); Apply kinds only.
 	Kept bool `json:"kept,omitempty"`
+	// Outer: through the struct-level handle (Builder.Struct) this builder handed out first in
+	// the history, kept in a variable ever since — also across Reset; methods only. It names the
+	// same configuration as a fresh Struct(..) lookup.
+	Outer bool `json:"outer,omitempty"`
 }
 
 func (o Op) String() string {
@@ -160,6 +174,9 @@ func (o Op) String() string {
 	}
 	if o.Kept {
 		h = "[kept]"
+	}
+	if o.Outer {
+		h = "[via the first Struct() handle]"
 	}
 	return fmt.Sprintf("b%d.%s%s.%s", o.B, TargetNames[o.T], h, KindNames[o.K])
 }
@@ -187,6 +204,7 @@ type World struct {
 	B       [2]*mocker.Builder
 	handles [2][NTargets]*handle
 	kept    [2][NTargets]*handle
+	outer   [2]*mocker.CachedMethodMocker
 	nRet    [2][NTargets]int
 	nWhen   [2][NTargets]int
 	og      func(int) int
@@ -204,6 +222,9 @@ func NewWorld() *World {
 func (w *World) lookup(b int, t Target) *handle {
 	bd := w.B[b]
 	h := &handle{}
+	if (t == TM || t == TLm) && w.outer[b] == nil {
+		w.outer[b] = bd.Struct(&hw.S{})
+	}
 	switch t {
 	case TF0:
 		h.exported = bd.Func(hw.F0)
@@ -220,6 +241,10 @@ func (w *World) lookup(b int, t Target) *handle {
 		h.unexported = bd.ExportFunc("g2")
 	case TXA:
 		h.iface = bd.Interface(&hw.X).Method("A")
+	case TVv:
+		h.exported = bd.Struct(hw.V{}).Method("ValM")
+	case TVp:
+		h.exported = bd.Struct(&hw.V{}).Method("PtrM")
 	}
 	w.handles[b][t] = h
 	if w.kept[b][t] == nil {
@@ -249,7 +274,15 @@ func (w *World) Do(op Op) (panicMsg string, panicked bool) {
 			return
 		}
 		var h *handle
-		if op.Kept && w.kept[op.B][op.T] != nil {
+		if op.Outer && w.outer[op.B] != nil && (op.T == TM || op.T == TLm) {
+			h = &handle{}
+			if op.T == TM {
+				h.exported = w.outer[op.B].Method("M")
+			} else {
+				h.unexported = w.outer[op.B].ExportMethod("m")
+			}
+			w.handles[op.B][op.T] = h
+		} else if op.Kept && w.kept[op.B][op.T] != nil {
 			h = w.kept[op.B][op.T]
 		} else if op.Retained && w.handles[op.B][op.T] != nil {
 			h = w.handles[op.B][op.T]
@@ -278,6 +311,10 @@ func (w *World) Do(op Op) (panicMsg string, panicked bool) {
 				add = 20000
 			}
 			switch {
+			case t == TVv:
+				h.exported.Apply(func(v hw.V, a int) int { return a + add })
+			case t == TVp:
+				h.exported.Apply(func(v *hw.V, a int) int { return a + add })
 			case t == TM || t == TLm:
 				cb := func(s *hw.S, a int) int { return a + add }
 				if h.exported != nil {
